@@ -3,7 +3,8 @@
    Stores are arbitrary graphs of objects (modules, classes, functions, attributes, aliases with resolved / unresolvable /
    cyclic targets); fbc is the model of find_breaking_changes with its seen_paths guard; breakages l is what it reports. *)
 From Coq Require Import List Arith Bool String.
-From Verif Require Import Lib.Sexp Model.C10_kinds Gen.C10_tables Model.C10_diff Model.C11_apidiff Proofs.C11_apidiff.
+From Verif Require Import Lib.Sexp Model.C10_kinds Gen.C10_tables Model.C10_diff Model.C11_apidiff Proofs.C11_apidiff Model.C11_elab Proofs.C11_elab.
+From Verif Require Model.C07_mro.
 Import ListNotations.
 Open Scope string_scope. Open Scope list_scope. Open Scope nat_scope.
 
@@ -125,3 +126,93 @@ Print Assumptions C11_exit_code_iff.
 Theorem C11_is_public_matches_doc : forall p m, is_public p m = is_public_doc p m.
 Proof. exact is_public_matches_doc. Qed.
 Print Assumptions C11_is_public_matches_doc.
+
+(* ======== elaboration layer (Model/C11_elab.v): alias targets, resolved bases, MRO and inherited members are computed inside
+   Coq from the declared structure (raw stores); [elab r] is the store the comparison runs on.
+   provider r c n = CPython's lookup of n on class c: the declared member, else the member of the first class along the MRO
+   (C07's model of Class.mro()) that declares n.  view r c cn n = the member the elaborated class shows under n. ======== *)
+
+(* the inherited view is CPython's lookup: the member shown under n is the provider itself (declared) or one fresh alias
+   (appended node, public = None) whose target is the provider -- the nearest definition along the MRO, never a more distant one *)
+Theorem C11_inherited_view_is_mro_lookup : forall r c cn n o, rclass_of r c cn -> provider r c n = Some o ->
+  exists j, view r c cn n = Some j /\
+            (j = o \/ (lookup n (rmembers cn) = None /\ List.length (rnodes r) <= j /\
+                       get (elab r) j = Some (mkNode n None (BAlias (TRes o))))).
+Proof. exact view_is_provider. Qed.
+Print Assumptions C11_inherited_view_is_mro_lookup.
+
+(* ... and a name nothing provides (or an uncomputable MRO) shows no member at all *)
+Theorem C11_inherited_view_none : forall r c cn n, rclass_of r c cn -> provider r c n = None -> view r c cn n = None.
+Proof. exact view_none. Qed.
+Print Assumptions C11_inherited_view_none.
+
+(* at any depth: when a pair of classes is compared, the comparison reaches the definitions that CPython's lookup provides
+   for every name whose view on the old class is public -- whether declared or inherited on either side *)
+Theorem C11_visit_through_inheritance : forall ro rn ri rj c c' cn cn' n o o' on on',
+  Visit (elab ro) (elab rn) ri rj c c' -> rclass_of ro c cn -> rclass_of rn c' cn' ->
+  provider ro c n = Some o -> provider rn c' n = Some o' ->
+  rget ro o = Some on -> r_is_alias on = false -> rget rn o' = Some on' -> r_is_alias on' = false ->
+  (forall j mo, view ro c cn n = Some j -> get (elab ro) j = Some mo -> is_public (elab_node ro (inhs ro) c cn) mo = true) ->
+  Visit (elab ro) (elab rn) ri rj o o'.
+Proof. exact visit_through_inheritance. Qed.
+Print Assumptions C11_visit_through_inheritance.
+
+(* the alias made for an inherited name is public unless the name is private or imported into the class *)
+Theorem C11_inherited_alias_public : forall r ll c cn n o, r_is_class cn = true ->
+  is_private n = false -> smem n (imports_of (elab_node r ll c cn)) = false ->
+  is_public (elab_node r ll c cn) (mkNode n None (BAlias (TRes o))) = true.
+Proof. exact inherited_alias_public. Qed.
+Print Assumptions C11_inherited_alias_public.
+
+(* one-step re-exports: the comparison follows a visited alias to the object its target path names in the modules collection *)
+Theorem C11_visit_through_reexport : forall ro rn ri rj a a' an an' p p' t t' tn tn',
+  Visit (elab ro) (elab rn) ri rj a a' ->
+  rget ro a = Some an -> rbody_of an = RAlias p -> walk ro p = WOk t -> rget ro t = Some tn -> r_is_alias tn = false ->
+  rget rn a' = Some an' -> rbody_of an' = RAlias p' -> walk rn p' = WOk t' -> rget rn t' = Some tn' -> r_is_alias tn' = false ->
+  Visit (elab ro) (elab rn) ri rj t t'.
+Proof. exact visit_through_reexport. Qed.
+Print Assumptions C11_visit_through_reexport.
+
+Theorem C11_visit_reexport_vs_object : forall ro rn ri rj a a' an an' p t tn,
+  Visit (elab ro) (elab rn) ri rj a a' ->
+  rget ro a = Some an -> rbody_of an = RAlias p -> walk ro p = WOk t -> rget ro t = Some tn -> r_is_alias tn = false ->
+  rget rn a' = Some an' -> r_is_alias an' = false ->
+  Visit (elab ro) (elab rn) ri rj t a'.
+Proof. exact visit_reexport_vs_object. Qed.
+Print Assumptions C11_visit_reexport_vs_object.
+
+(* every local incompatibility (kind, value, parameters, bases, return) between the definitions CPython's lookup provides
+   for a public name of a compared class is reported -- also when the old or the new definition sits in a private
+   intermediate base class *)
+Theorem C11_inherited_change_reported : forall ro rn ri rj fuel s l,
+  fbc (elab ro) (elab rn) fuel ri rj = Ok s l ->
+  forall c c' cn cn' n o o' on on' b,
+  Visit (elab ro) (elab rn) ri rj c c' -> rclass_of ro c cn -> rclass_of rn c' cn' ->
+  provider ro c n = Some o -> provider rn c' n = Some o' ->
+  rget ro o = Some on -> r_is_alias on = false -> rget rn o' = Some on' -> r_is_alias on' = false ->
+  (forall j mo, view ro c cn n = Some j -> get (elab ro) j = Some mo -> is_public (elab_node ro (inhs ro) c cn) mo = true) ->
+  In b (local (elab ro) (elab rn) (EHead o o')) -> In b (breakages (elab ro) (elab rn) l).
+Proof. exact inherited_change_reported. Qed.
+Print Assumptions C11_inherited_change_reported.
+
+Theorem C11_inherited_rekinding_reported : forall ro rn ri rj fuel s l,
+  fbc (elab ro) (elab rn) fuel ri rj = Ok s l ->
+  forall c c' cn cn' n o o' on on',
+  Visit (elab ro) (elab rn) ri rj c c' -> rclass_of ro c cn -> rclass_of rn c' cn' ->
+  provider ro c n = Some o -> provider rn c' n = Some o' ->
+  rget ro o = Some on -> r_is_alias on = false -> rget rn o' = Some on' -> r_is_alias on' = false ->
+  (forall j mo, view ro c cn n = Some j -> get (elab ro) j = Some mo -> is_public (elab_node ro (inhs ro) c cn) mo = true) ->
+  rkind on <> rkind on' -> In (BKind o') (breakages (elab ro) (elab rn) l).
+Proof. exact inherited_rekinding_reported. Qed.
+Print Assumptions C11_inherited_rekinding_reported.
+
+(* a public name CPython's lookup finds on the old class and no longer on the new one is reported as removed (on the class's own path) *)
+Theorem C11_inherited_removal_reported : forall ro rn ri rj fuel s l,
+  fbc (elab ro) (elab rn) fuel ri rj = Ok s l ->
+  forall c c' cn cn' n o on,
+  Visit (elab ro) (elab rn) ri rj c c' -> rclass_of ro c cn -> rclass_of rn c' cn' ->
+  provider ro c n = Some o -> rget ro o = Some on -> provider rn c' n = None ->
+  (forall j mo, view ro c cn n = Some j -> get (elab ro) j = Some mo -> is_public (elab_node ro (inhs ro) c cn) mo = true) ->
+  exists j, view ro c cn n = Some j /\ In (BRemoved j) (breakages (elab ro) (elab rn) l).
+Proof. exact inherited_removal_reported. Qed.
+Print Assumptions C11_inherited_removal_reported.
